@@ -241,6 +241,12 @@ inductive SOp (σ : Type) where
   | deleteExpired
   deriving Repr, DecidableEq
 
+/-- Does a spec-level call name the id `j`? -/
+def SOp.mentions {σ} : SOp σ → Nat → Bool
+  | .create i _ _, j | .update i _ _, j | .updateTtl i _, j | .load i, j | .delete i, j => i == j
+  | .changeId o n, j => o == j || n == j
+  | .deleteExpired, _ => false
+
 inductive SRes (σ : Type) where
   | ok | dup | unknown
   | loaded (r : Option (σ × Nat))         -- state and deadline
